@@ -1,4 +1,5 @@
 //! Runs the real implementation on case files; prints canonical observations (one JSON per line).
+mod collect;
 mod config;
 mod own;
 mod slices;
@@ -16,6 +17,7 @@ fn main() {
         "slices" => slices::run(&input),
         "own" => own::run(&input),
         "config" => config::run(&input),
+        "collect" => collect::run(&input),
         other => {
             eprintln!("unknown area {other}");
             std::process::exit(2);
